@@ -67,7 +67,10 @@ package common
 //@   ensures [failureKeepsLen] !result ==> len(stmt.operations) == old(len(stmt.operations))
 //@   ensures [lenGrows] lenGrows(stmt)
 //@   ensures [prefixKept] prefixKept(stmt)
-//@   ensures [wfKept] framework.wfLog(stmt)
+//@   ensures [wfKnownKept] framework.wfKnown(stmt)
+//@   ensures [wfRevKept] framework.wfRev(stmt)
+//@   ensures [wfBackKept] framework.wfBack(stmt)
+//@   ensures [wfTaskKept] framework.wfTask(stmt)
 //@ end
 
 //@ func pipelineTaskToNode
@@ -78,11 +81,14 @@ package common
 //@   ensures [lenGrows] lenGrows(stmt)
 //@   ensures [prefixKept] prefixKept(stmt)
 //@   ensures [nominatedOnSuccess] updateTasksIfExistsOnNode && result ==> nominatedNow(stmt) && task.NodeName == old(node.Name)
-//@   ensures [wfKept] framework.wfLog(stmt)
+//@   ensures [wfKnownKept] framework.wfKnown(stmt)
+//@   ensures [wfRevKept] framework.wfRev(stmt)
+//@   ensures [wfBackKept] framework.wfBack(stmt)
+//@   ensures [wfTaskKept] framework.wfTask(stmt)
 //@ end
 
 //@ func allocateTaskToNode
-//@   props C01 C03
+//@   props XALLOC
 //@   requires placeReady(ssn, stmt, task, node)
 //@   assume envOK(stmt, node) && node_info.nodeReadable(node) && node_info.taskReadable(task)
 //@   modifies *
@@ -92,7 +98,10 @@ package common
 //@   ensures [elseNominated] !old(sharedReq(task)) && !isPipelineOnly && result && !old(node.IsTaskAllocatable(task)) ==> nominatedNow(stmt)
 //@   ensures [lenGrows] !old(sharedReq(task)) ==> lenGrows(stmt)
 //@   ensures [prefixKept] !old(sharedReq(task)) ==> prefixKept(stmt)
-//@   ensures [wfKept] !old(sharedReq(task)) ==> framework.wfLog(stmt)
+//@   ensures [wfKnownKept] !old(sharedReq(task)) ==> framework.wfKnown(stmt)
+//@   ensures [wfRevKept] !old(sharedReq(task)) ==> framework.wfRev(stmt)
+//@   ensures [wfBackKept] !old(sharedReq(task)) ==> framework.wfBack(stmt)
+//@   ensures [wfTaskKept] !old(sharedReq(task)) ==> framework.wfTask(stmt)
 //@ end
 
 // ---- solver ----
@@ -109,7 +118,10 @@ package common
 //@   note trusted (to be replaced by alloc's verified contract): the body calls stmt.Evict(task, ...) for the tasks of preempteeTasks in order and stops at the first error; Evict appends one evict entry for its task on success and leaves the log alone on error (framework [appendsOneEvict] [capturesTask] [errorKeepsLog])
 //@   requires stmt != nil && framework.wfLog(stmt)
 //@   modifies *
-//@   ensures [wfKept] framework.wfLog(stmt)
+//@   ensures [wfKnownKept] framework.wfKnown(stmt)
+//@   ensures [wfRevKept] framework.wfRev(stmt)
+//@   ensures [wfBackKept] framework.wfBack(stmt)
+//@   ensures [wfTaskKept] framework.wfTask(stmt)
 //@   ensures [lenGrows] lenGrows(stmt)
 //@   ensures [prefixKept] prefixKept(stmt)
 //@   ensures [tasksKept] forall i int :: 0 <= i && i < len(preempteeTasks) ==> preempteeTasks[i] == old(preempteeTasks[i])
@@ -122,7 +134,10 @@ package common
 //@   note trusted (to be replaced by alloc's verified contract): builds a fresh JobsOrderByQueues from the pending jobs, the victims' jobs and the preemptor (utils.GetAllPendingJobs / NewJobsOrderByQueues / InitializeWithJobs); touches no statement
 //@   modifies *
 //@   ensures [resultNonNil] result != nil
-//@   ensures [logsSame] forall st *framework.Statement :: old(allocated(st)) ==> st.operations == old(st.operations) && len(st.operations) == old(len(st.operations)) && (forall j int :: 0 <= j && j < len(st.operations) ==> st.operations[j] == old(st.operations[j]))
+//@   ensures [logsSame] framework.logsSame()
+//@   ensures [wfKept] forall st *framework.Statement :: old(allocated(st)) && old(framework.wfLog(st)) ==> framework.wfLog(st)
+//@   ensures [lensKept] forall st *framework.Statement :: old(allocated(st)) ==> len(st.operations) == old(len(st.operations))
+//@   ensures [entriesKept] forall st *framework.Statement, j int :: old(allocated(st)) && 0 <= j && j < old(len(st.operations)) ==> st.operations[j] == old(st.operations[j])
 //@   ensures [tasksKept] forall i int :: 0 <= i && i < len(preempteeTasks) ==> preempteeTasks[i] == old(preempteeTasks[i])
 //@ end
 //@ func TryToVirtuallyAllocatePreemptorAndGetVictims
@@ -131,9 +146,24 @@ package common
 //@   note trusted (to be replaced by alloc's verified contract): places jobs only through AllocateJob(ssn, stmt, ...), i.e. stmt.Allocate / stmt.Pipeline / stmt.Rollback of the statement it is given; these keep the log well-formed and its prefix (framework [lenGrows] [prefixKept] [newEntriesOK]); no claim about WHICH entries are appended
 //@   requires stmt != nil && framework.wfLog(stmt)
 //@   modifies *
-//@   ensures [wfKept] framework.wfLog(stmt)
+//@   ensures [wfKnownKept] framework.wfKnown(stmt)
+//@   ensures [wfRevKept] framework.wfRev(stmt)
+//@   ensures [wfBackKept] framework.wfBack(stmt)
+//@   ensures [wfTaskKept] framework.wfTask(stmt)
 //@   ensures [lenGrows] lenGrows(stmt)
 //@   ensures [prefixKept] prefixKept(stmt)
 //@   ensures [tasksKept] forall i int :: 0 <= i && i < len(preempteeTasks) ==> preempteeTasks[i] == old(preempteeTasks[i])
 //@ end
 // ---- end solver ----
+
+// ---- (b) the gang protocol: allocateTask .. AllocateJob ------------------------------------------------------
+// Error bookkeeping only (fit errors on the job); never touches a statement.
+//@ func handleFailedTaskAllocation
+//@   props XALLOC
+//@   requires podgroup_info.setsOK(job) && unschedulableTask != nil && job.TasksFitErrors != nil
+//@   requires podgroup_info.sgName(unschedulableTask) in job.PodSets
+//@   modifies *
+//@   loop 1
+//@     invariant framework.logsSame()
+//@   ensures [logsSame] framework.logsSame()
+//@ end
